@@ -2,6 +2,7 @@ import GomlVerif.Model.Pipeline
 import GomlVerif.Lemmas.PipeMonoSim
 import GomlVerif.Props.C08
 import GomlVerif.Props.C09
+import GomlVerif.Props.Dce
 /-!
 Pipeline composition: adapters between the shapes of the per-pass theorems.
 
@@ -98,5 +99,39 @@ theorem stages_spec {i : PipeIn} {s : Stages} (h : stages i = some s) :
       exact ⟨rfl, rfl, rfl, rfl, rfl, rfl, ho, he, rfl⟩
 
 theorem fragAnf_iff (s : Stages) : fragAnf s = Anf.allInFragment s.lift s.gensym := rfl
+
+end Goml.Pipeline
+
+/-! ### the back half: Go generation and dead-code elimination -/
+namespace Goml.Pipeline
+open Goml Goml.Sem Goml.Go
+
+/-- **The hypothesis about `go/compile.rs`** (statement lowering ANF → Go AST; being modelled by
+    another worker — NOT an axiom: it is a parameter of `end_to_end_partial`).  `compile` is the
+    model of `go::compile::go_file` without its final `eliminate_dead_vars`; `A` the ANF program.
+    Shape: the `Reproduces` of the middle-end links, with `Go.Sem` on the target side. -/
+def CompileSim (compile : Prog → GFile) (A : Prog) : Prop :=
+  ∀ (fuel : Nat) (eager : Bool), Definite (run fuel A "main" eager) →
+    ∃ m, runGo m (compile A) "main" eager = run fuel A "main" eager
+
+/-- **What a file-level lifting of `Dce.dce_preserves` would give** (not available, see
+    `end_to_end_partial`): every definite run of the emitted file is reproduced by the file
+    `eliminate_dead_vars` returns. -/
+def DceFileSim (G : GFile) : Prop :=
+  ∀ (fuel : Nat) (eager : Bool), Definite (runGo fuel G "main" eager) →
+    ∃ m, runGo m (Dce.eliminateDeadVars G) "main" eager = runGo fuel G "main" eager
+
+theorem back_half {P A : Prog} (hP : Reproduces P A) (compile : Prog → GFile)
+    (hcompile : CompileSim compile A) (hdce : DceFileSim (compile A))
+    (fuel : Nat) (eager : Bool) (hdef : Definite (run fuel P "main" eager)) :
+    (∃ m, runGo m (compile A) "main" eager = run fuel P "main" eager) ∧
+    (∃ m, runGo m (Dce.eliminateDeadVars (compile A)) "main" eager = run fuel P "main" eager) := by
+  obtain ⟨m0, hm0⟩ := hP fuel eager hdef
+  have e0 := hm0 m0 (Nat.le_refl _)
+  obtain ⟨m1, hm1⟩ := hcompile m0 eager (by rw [e0]; exact hdef)
+  have e1 : runGo m1 (compile A) "main" eager = run fuel P "main" eager := by rw [hm1, e0]
+  refine ⟨⟨m1, e1⟩, ?_⟩
+  obtain ⟨m2, hm2⟩ := hdce m1 eager (by rw [e1]; exact hdef)
+  exact ⟨m2, by rw [hm2, e1]⟩
 
 end Goml.Pipeline
